@@ -80,8 +80,10 @@ func compileAndCheck(e *env, cases []*caseOp, results []*caseResult, res *common
 	}
 	rtProgs := map[string][]string{}
 	byPid := map[string]*caseOp{}
+	var callPids []string
 	defer func() {
 		roundTrip(e, rtSeed, rtProgs, byPid, res, rtThorough, verbose)
+		callTest(e, rtSeed, callPids, byPid, res, rtThorough, verbose)
 	}()
 	for _, c := range accepted {
 		pid := fmt.Sprintf("p%d", c.ID)
@@ -104,6 +106,9 @@ func compileAndCheck(e *env, cases []*caseOp, results []*caseResult, res *common
 			continue
 		}
 		rtProgs[pid] = got
+		if len(c.Calls) > 0 {
+			callPids = append(callPids, pid)
+		}
 		want := append([]string(nil), c.Expect...)
 		sort.Strings(want)
 		if verbose {
